@@ -1992,6 +1992,10 @@ func (ls *LState) Resume(th *LState, fn *LFunction, args ...LValue) (ResumeState
 	if th.Dead {
 		return ResumeError, newApiErrorS(ApiErrorRun, "can not resume a dead thread"), nil
 	}
+	if ls.Status(th) == "normal" {
+		// th is waiting for a coroutine it resumed (directly or indirectly this one)
+		return ResumeError, newApiErrorS(ApiErrorRun, "can not resume a normal thread"), nil
+	}
 	th.Parent = ls
 	ls.G.CurrentThread = th
 	if !isstarted {
